@@ -333,7 +333,12 @@ def wrap_obligations(prog):
     tab = load_table("wrap_sites.json")
     groups = tab["groups"]
     allobs = _wrap_scan(prog)
-    sites = [{"idbase": o.oid.rsplit("#", 1)[0], "fn": o.fn, "loc": o.loc, "text": o.text, "proved": bool(o.ok), "detail": o.detail, "props": o.props}
+    def _grp(oid):
+        # armed per (function, kind of operation): the variable that receives the result may be renamed or introduced
+        base = oid.rsplit("#", 1)[0]
+        fn_ = base.split(":")[1]
+        return "R-WRAP:%s:%s" % (fn_, "mul" if "*" in base.split(":", 2)[2][-2:] else "add")
+    sites = [{"idbase": _grp(o.oid), "fn": o.fn, "loc": o.loc, "text": o.text, "proved": bool(o.ok), "detail": o.detail, "props": o.props}
              for o in allobs]
     obs = armed_group_obligations("R-WRAP", sites, groups, unproved=tab.get("unproved"))
     return obs, {"candidates": len(allobs), "armed_groups": len(groups),
@@ -352,7 +357,11 @@ def _wrap_scan(prog):
         cnt = 0
         dup = {}
         for el in f.elems():
-            for x in walk(el.e):
+            cands = list(walk(el.e))
+            if kind(el.e) == "decls":
+                # `const uint64_t scaled = a * 10;` is an assignment like any other
+                cands += [["assign", "=", ["var", d[1]], d[2]] for d in el.e[1:] if d[2] is not None and kind(d[2]) != "init"]
+            for x in cands:
                 if x[0] != "assign":
                     continue
                 op = x[1]
@@ -411,7 +420,7 @@ def _wrap_scan(prog):
                     if rej:
                         guard = b
                 post = None
-                if guard is None and op == "=":
+                if guard is None and op == "=" and opn == "+":      # r = a + b wrapped iff r < a; no such test exists for a product
                     # post-check idiom: the very next branch compares the result with one of the operands
                     bids = [el.blk] + [s2 for s2 in f.blocks[el.blk].succs if s2 is not None]
                     for bid in bids:
@@ -455,7 +464,8 @@ if __name__ == "__main__":
         w = _wrap_scan(prog)
         wg, wu = {}, {}
         for o in w:
-            b = o.oid.rsplit("#", 1)[0]
+            b0 = o.oid.rsplit("#", 1)[0]
+            b = "R-WRAP:%s:%s" % (b0.split(":")[1], "mul" if "*" in b0.split(":", 2)[2][-2:] else "add")
             if o.ok:
                 wg[b] = wg.get(b, 0) + 1
             else:
